@@ -61,6 +61,7 @@ struct WireSnk {
 };
 
 // ------------------------------------------------------------------ allocator ledger
+static int g_block_fill = 0xbe, g_block_scrub = -1;   // what fresh blocks contain (pool in erased RAM: 0xff, zeroed pool: 0x00, ...) and whether the pool scrubs returned blocks
 struct Ledger {
     Ctx *c = nullptr; size_t bs = 128; bool slab = false;
     Script fail;                                  // one entry per allocation: non-zero = fail
@@ -74,7 +75,7 @@ struct Ledger {
         if (fail.next(s) && s != 0) { *m = nullptr; ++failed; c->faults_fired++; COUNT("fault.allocation_failure"); c->ev(EV_ALLOC, 0, 0, allocs); return -ENOMEM; }
         void *p;
         if (recycle && !pool.empty()) { p = pool.back(); pool.pop_back(); ASAN_UNPOISON_MEMORY_REGION(p, bs); COUNT("probe.block_recycled_with_stale_content"); }
-        else { p = malloc(bs); memset(p, 0xbe, bs); }
+        else { p = malloc(bs); memset(p, g_block_fill, bs); }
         live[(uintptr_t)p] = allocs++;
         *m = p; c->ev(EV_ALLOC, 1, bs, allocs);
         return 0;
@@ -84,7 +85,7 @@ struct Ledger {
         c->ev(EV_FREE, it != live.end(), 0, frees);
         if (it == live.end()) { ++unknown_free; return; }   // never passed to free(): a double free would otherwise abort before we can report it
         live.erase(it); ++frees;
-        if (recycle) { ASAN_POISON_MEMORY_REGION(m, bs); pool.push_back(m); }   // use-after-free stays visible to ASan while the block waits in the pool
+        if (recycle) { if (g_block_scrub >= 0) memset(m, g_block_scrub, bs); ASAN_POISON_MEMORY_REGION(m, bs); pool.push_back(m); }   // use-after-free stays visible to ASan while the block waits in the pool
         else free(m);
     }
     // room behind a pointer inside a live block, 0 if it is not inside one
@@ -342,6 +343,8 @@ struct RegpHarness : Harness {
         const bool bigblock = (prop == "C09" || prop == "C06") && r.chance(1, 150);   // rarely a block around / above 64 KiB (sizes and counts that do not fit 16 bits)
         if (bigblock) { static const int64_t BB[] = {65535, 65536, 65537, 65552, 70000, 131072, 131080, 196700}; block = (int64_t)sizeof(RPFrame) + BB[r.below(8)]; }
         p["block"] = (long long)block; if (r.chance(1, 3)) p["macro_init"] = 1;
+        if (r.chance(1, 3)) { static const int F[] = {0x00, 0xff, 0xff, 0xa5, 0x01}; p["fill"] = F[r.below(5)]; }
+        if (r.chance(1, 4)) p["scrub"] = r.chance(1, 2) ? 0xff : 0x00;
         if (prop == "C08") { static const int DIRT[] = {0, 0, 0xff, 0xa5, 0x01, 0x80}; p["dirt"] = DIRT[r.below(6)]; }
         if (r.chance(1, 4)) p["lend"] = (long long)(r.chance(1, 3) ? r.range(1, 6) : (r.chance(1, 2) ? r.range(7, 40) : r.range(41, 400)));   // the channel sources implement the getbuffer extension
         const size_t room = (size_t)block - sizeof(RPFrame);
@@ -488,6 +491,8 @@ struct RegpHarness : Harness {
     struct Cfg { bool serial; int mt; size_t block; bool slab, so, ko; uint16_t seq0; bool recycle; unsigned confhist; };
     static Cfg cfg_of(const Json &plan) {
         g_macro_init = plan.geti("macro_init") != 0; g_bind_with_macros = false;
+        g_block_fill = plan.has("fill") ? (int)(plan.geti("fill") & 0xff) : 0xbe; g_block_scrub = plan.has("scrub") ? (int)(plan.geti("scrub") & 0xff) : -1;
+        if (g_block_fill == 0xff || g_block_scrub == 0xff) COUNT("probe.allocator_blocks_hold_0xff");
         { int64_t l = plan.geti("lend"); if (l < 0) l = 0; if (l > 4096) l = 4096; g_lend = (size_t)l; }
         Cfg c; c.serial = plan.geti("serial") != 0; c.mt = plan.geti("mt", 16) == 8 ? 8 : 16;
         int64_t b = plan.geti("block", 128); if (b < (int64_t)sizeof(RPFrame) + 1) b = (int64_t)sizeof(RPFrame) + 1; if (b > 400000) b = 400000; c.block = (size_t)b;
